@@ -359,9 +359,14 @@ func run(sc *scenario) (coq string, tags []string, err error) {
 			tagset[fmt.Sprintf("rename:writes%d", nWrites)] = true
 			if oldID := rowID(before.Q, s.Old); oldID != 0 && rowID(obs.Dump.Q, s.New) == oldID && rowID(obs.Dump.Q, s.Old) == 0 {
 				// the rename took effect: the new name now carries the IDs of the old one
+				// (also through a chain of renames while the type is not a singleton in between)
 				if sid, ok := sidOf[s.Old]; ok {
 					expectSid[s.New] = sid
 					delete(sidOf, s.Old)
+					delete(expectSid, s.Old)
+				} else if sid, ok := expectSid[s.Old]; ok {
+					expectSid[s.New] = sid
+					delete(expectSid, s.Old)
 				}
 			}
 			if s.Fault != nil {
